@@ -146,9 +146,100 @@ class Outcome:
         return 'Outcome(%s, %r, %s, %s)' % (self.kind, self.value, self.where, self.why)
 
 
+class AIter:
+    """abstract iterator over literal-length arrays / integer ranges with concrete positions (core iterator protocol model)"""
+    __slots__ = ('kind', 'a', 'b', 'lo', 'hi', 'meta')
+
+    def __init__(self, kind, a=None, b=None, lo=0, hi=0, meta=None):
+        self.kind = kind      # 'slice' (a = ARef to the aggregate), 'range' (meta = (bits, signed)), 'rev' (a), 'zip' (a, b), 'enum' (a, lo = counter)
+        self.a = a
+        self.b = b
+        self.lo = lo
+        self.hi = hi
+        self.meta = meta
+
+    def clone(self):
+        return AIter(self.kind, self.a.clone() if isinstance(self.a, AIter) else self.a, self.b.clone() if isinstance(self.b, AIter) else self.b,
+                     self.lo, self.hi, self.meta)
+
+    def length(self):
+        if self.kind in ('slice', 'range'):
+            return max(0, self.hi - self.lo)
+        if self.kind in ('rev', 'enum'):
+            return self.a.length()
+        if self.kind == 'zip':
+            return min(self.a.length(), self.b.length())
+
+    def item(self, i):
+        if self.kind == 'slice':
+            base = self.a
+            return ARef(base.frame, base.local, list(base.proj) + [{'cidx': i, 'min': 0, 'from_end': False}], base.mut)
+        bits, signed = self.meta
+        return AInt.const(bits, signed, i, taint='lit')
+
+    def next(self):
+        k = self.kind
+        if k in ('slice', 'range'):
+            if self.lo >= self.hi:
+                return None
+            v = self.item(self.lo)
+            self.lo += 1
+            return v
+        if k == 'rev':
+            return self.a.next_back()
+        if k == 'zip':
+            x = self.a.next()
+            if x is None:
+                return None
+            y = self.b.next()
+            if y is None:
+                return None
+            return AAgg('(tuple)', [x, y])
+        if k == 'enum':
+            x = self.a.next()
+            if x is None:
+                return None
+            i = self.lo
+            self.lo += 1
+            return AAgg('(tuple)', [AInt.const(64, False, i, taint='lit'), x])
+
+    def next_back(self):
+        k = self.kind
+        if k in ('slice', 'range'):
+            if self.lo >= self.hi:
+                return None
+            self.hi -= 1
+            return self.item(self.hi)
+        if k == 'rev':
+            return self.a.next()
+        if k == 'zip':
+            la, lb = self.a.length(), self.b.length()
+            while la > lb:
+                self.a.next_back()
+                la -= 1
+            while lb > la:
+                self.b.next_back()
+                lb -= 1
+            x = self.a.next_back()
+            if x is None:
+                return None
+            return AAgg('(tuple)', [x, self.b.next_back()])
+        if k == 'enum':
+            n = self.a.length()
+            x = self.a.next_back()
+            if x is None:
+                return None
+            return AAgg('(tuple)', [AInt.const(64, False, self.lo + n - 1, taint='lit'), x])
+
+    def __repr__(self):
+        return 'Iter<%s %s..%s>' % (self.kind, self.lo, self.hi)
+
+
 def copyval(v):
     if isinstance(v, AAgg):
         return AAgg(v.ty, [copyval(f) for f in v.fields], v.variant, v.origin)
+    if isinstance(v, AIter):
+        return v.clone()
     return v
 
 
@@ -1568,32 +1659,98 @@ def _into_iter_array(I, fr, t, path, rargs, args):
     if isinstance(a, ARef):
         v = I.read_place(a.frame, {'l': a.local, 'p': a.proj})
         if isinstance(v, AAgg):
-            return AAgg('<slice-iter>', [a, AInt.const(64, False, 0), AInt.const(64, False, len(v.fields))])
+            return AIter('slice', a=a, lo=0, hi=len(v.fields))
     return ATop('?')
 
 
-def _slice_iter_next(I, fr, t, path, rargs, args):
-    it = args[0]
-    if isinstance(it, ARef):
-        v = I.read_place(it.frame, {'l': it.local, 'p': it.proj})
-        if isinstance(v, AAgg) and v.ty == '<slice-iter>':
-            base, idx, n = v.fields
-            if idx.lo >= n.lo:
+def _iter_from_ref(I, fr, t, path, rargs, args):
+    return _into_iter_array(I, fr, t, path, rargs, args)
+
+
+def _iter_obj(I, a):
+    if isinstance(a, ARef):
+        a = I.read_place(a.frame, {'l': a.local, 'p': a.proj})
+    return a if isinstance(a, AIter) else None
+
+
+def _iter_next(I, fr, t, path, rargs, args):
+    it = _iter_obj(I, args[0])
+    if it is None:
+        # Range<A> stored as a plain aggregate {start, end}
+        a = args[0]
+        v = I.read_place(a.frame, {'l': a.local, 'p': a.proj}) if isinstance(a, ARef) else None
+        if isinstance(v, AAgg) and len(v.fields) == 2 and all(isinstance(f, AInt) and f.is_const() for f in v.fields):
+            lo, hi = v.fields
+            if lo.lo >= hi.lo:
                 return AAgg('core::option::Option', [], 0)
-            v.fields[1] = AInt.const(64, False, idx.lo + 1)
-            elem = ARef(base.frame, base.local, list(base.proj) + [{'cidx': idx.lo, 'min': 0, 'from_end': False}])
-            return AAgg('core::option::Option', [elem], 1)
-    I.havoc_refs(args)
-    return ATop('?')
+            v.fields[0] = AInt.const(lo.bits, lo.signed, lo.lo + 1, taint='lit')
+            return AAgg('core::option::Option', [lo], 1)
+        I.havoc_refs(args)
+        return ATop('?')
+    x = it.next()
+    if x is None:
+        return AAgg('core::option::Option', [], 0)
+    return AAgg('core::option::Option', [x], 1)
 
 
 def _identity_into_iter(I, fr, t, path, rargs, args):
-    return args[0]
+    a = args[0]
+    if isinstance(a, AAgg) and len(a.fields) == 2 and all(isinstance(f, AInt) and f.is_const() for f in a.fields) and 'Range' in str(a.ty):
+        lo, hi = a.fields
+        return AIter('range', lo=lo.lo, hi=hi.lo, meta=(lo.bits, lo.signed))
+    return a
+
+
+def _iter_rev(I, fr, t, path, rargs, args):
+    it = _to_iter(I, args[0])
+    return AIter('rev', a=it) if it is not None else ATop('?')
+
+
+def _to_iter(I, a):
+    if isinstance(a, AIter):
+        return a
+    if isinstance(a, AAgg) and len(a.fields) == 2 and all(isinstance(f, AInt) and f.is_const() for f in a.fields):
+        lo, hi = a.fields
+        return AIter('range', lo=lo.lo, hi=hi.lo, meta=(lo.bits, lo.signed))
+    return None
+
+
+def _iter_zip(I, fr, t, path, rargs, args):
+    a, b = _to_iter(I, args[0]), _to_iter(I, args[1])
+    if a is None or b is None:
+        return ATop('?')
+    return AIter('zip', a=a, b=b)
+
+
+def _iter_enumerate(I, fr, t, path, rargs, args):
+    it = _to_iter(I, args[0])
+    return AIter('enum', a=it, lo=0) if it is not None else ATop('?')
+
+
+def _option_unwrap(I, fr, t, path, rargs, args):
+    a = args[0]
+    if isinstance(a, AAgg) and a.ty == 'core::option::Option':
+        if a.variant == 1:
+            return a.fields[0]
+        raise Panic('explicit', I.where(fr, t['span']), 'Option::unwrap on None', site=I.site_of_call(fr.body, t))
+    return ATop('?')
 
 
 INTRINSICS = {
     "core::array::<impl core::iter::IntoIterator for &'a [T; N]>::into_iter": _into_iter_array,
-    "<core::slice::Iter<'a, T> as core::iter::Iterator>::next": _slice_iter_next,
+    "<core::slice::Iter<'a, T> as core::iter::Iterator>::next": _iter_next,
+    "<core::slice::IterMut<'a, T> as core::iter::Iterator>::next": _iter_next,
+    "core::slice::<impl [T]>::iter": _iter_from_ref,
+    "core::slice::<impl [T]>::iter_mut": _iter_from_ref,
+    "<I as core::iter::IntoIterator>::into_iter": _identity_into_iter,
+    "core::iter::Iterator::rev": _iter_rev,
+    "core::iter::Iterator::zip": _iter_zip,
+    "core::iter::Iterator::enumerate": _iter_enumerate,
+    "<core::iter::Rev<I> as core::iter::Iterator>::next": _iter_next,
+    "<core::iter::Zip<A, B> as core::iter::Iterator>::next": _iter_next,
+    "<core::iter::Enumerate<I> as core::iter::Iterator>::next": _iter_next,
+    "core::iter::range::<impl core::iter::Iterator for core::ops::Range<A>>::next": _iter_next,
+    "core::option::Option::<T>::unwrap": _option_unwrap,
     'core::cmp::PartialOrd::lt': _cmp_method('Lt'),
     'core::cmp::PartialOrd::le': _cmp_method('Le'),
     'core::cmp::PartialOrd::gt': _cmp_method('Gt'),
